@@ -34,10 +34,7 @@ m("c01-no-check-callback-loop", "C01", VM, "            while len(self.call_stac
 m("c01-poll-every-1e6", "C01", VM, "self.instruction_count % 1000 == 0", "self.instruction_count % 1000000 == 0")
 m("c01-compare-flipped", "C01", VM, "if time.monotonic() - self.start_time > self.time_limit:\n                raise TimeLimitError", "if time.monotonic() - self.start_time < self.time_limit:\n                raise TimeLimitError")
 m("c01-wall-clock", "C01", VM, "if time.monotonic() - self.start_time > self.time_limit:\n                raise TimeLimitError", "if time.time() - self.start_time > self.time_limit:\n                raise TimeLimitError")
-m("c01-build-regex-no-poll", "C01", VM, "            regex = JSRegExp(pattern, flags, poll_callback)\n            self.stack.append(regex)", "            regex = JSRegExp(pattern, flags, None)\n            self.stack.append(regex)")
-m("c01-regexp-ctor-no-poll", "C01", CTX, "            return JSRegExp(pattern, flags, poll_callback)", "            return JSRegExp(pattern, flags, None)")
 m("c01-match-string-pattern-no-poll", "C01", VM, 'regex_internal = InternalRegExp(to_string(pattern), "", poll_callback)\n                is_global = False', 'regex_internal = InternalRegExp(to_string(pattern), "", None)\n                is_global = False')
-m("c01-lookahead-no-poll", "C01", RVM, "        while True:\n            step_count += 1\n            if step_count % self.poll_interval == 0:\n                if self.poll_callback and self.poll_callback():\n                    raise RegexTimeoutError(\"Regex execution timed out\")\n\n            # Same hard step limit as the main loop (ReDoS protection)\n            if step_count > self.step_limit:\n                return None\n", "        while True:\n            step_count += 1\n", 1)
 m("c01-test-no-translation", "C01", VM, "            try:\n                return re.test(string)\n            except RegexTimeoutError:\n                raise TimeLimitError(\"Regex execution timeout\")", "            return re.test(string)")
 m("c01-nested-vm-restarts-clock", "C01", VM, "        if self.start_time is None:\n            self.start_time = time.monotonic()", "        self.start_time = time.monotonic()")
 m("c01-eval-swallows-limit", "C01", CTX, "                return vm.run(bytecode_module)\n            except (TimeLimitError, MemoryLimitError):\n                raise\n", "                return vm.run(bytecode_module)\n")
@@ -48,36 +45,52 @@ m("c02-estimate-x1000", "C02", VM, "mem_used = len(self.stack) * 100 + len(self.
 m("c02-estimate-div1000", "C02", VM, "mem_used = len(self.stack) * 100 + len(self.call_stack) * 200", "mem_used = (len(self.stack) * 100 + len(self.call_stack) * 200) // 1000")
 m("c02-throw-no-truncate", "C02", VM, "            del self.stack[stack_depth:]\n", "")
 m("c02-return-no-truncate", "C02", VM, "            popped_frame = self.call_stack.pop()\n            # Discard operands the frame still had pending (e.g. the iterator\n            # of a for-in loop that is left by this return)\n            del self.stack[popped_frame.bp :]\n", "            popped_frame = self.call_stack.pop()\n")
-m("c02-exprstmt-no-pop-in-forof-break", "C02", CMP, "            for _ in range(loop_ctx.stack_items):\n                self._emit(OpCode.POP)", "            pass")
 m("c02-tryend-noop", "C02", VM, "            if self.exception_handlers:\n                self.exception_handlers.pop()\n\n        elif op == OpCode.CATCH:", "            pass\n\n        elif op == OpCode.CATCH:")
 m("c02-recursionerror-escapes", "C02", VM, "        except RecursionError:\n", "        except ZeroDivisionError:\n")
 m("c02-switch-break-leaks", "C02", CMP, "            self._patch_jump(jump_end)\n            # Patch break jumps here: a break also has to pop the discriminant\n            for pos in loop_ctx.break_jumps:\n                self._patch_jump(pos)\n            self._emit(OpCode.POP)  # Pop discriminant\n", "            self._patch_jump(jump_end)\n            self._emit(OpCode.POP)  # Pop discriminant\n            for pos in loop_ctx.break_jumps:\n                self._patch_jump(pos)\n")
 # ---- C07
 m("c07-throw-pops-outermost-handler", "C07", VM, "frame_idx, catch_ip, stack_depth = self.exception_handlers.pop()", "frame_idx, catch_ip, stack_depth = self.exception_handlers.pop(0)")
 m("c07-no-frame-unwind", "C07", VM, "            while len(self.call_stack) > frame_idx + 1:\n                self.call_stack.pop()\n", "")
-m("c07-pending-finally-skips-innermost", "C07", CMP, "        for depth in range(len(saved_try_stack) - 1, down_to - 1, -1):", "        for depth in range(len(saved_try_stack) - 2, down_to - 1, -1):")
-m("c07-break-runs-all-finalizers", "C07", CMP, "            self._emit_pending_finally_blocks(ctx.try_depth)\n\n            # Pop what the constructs nested inside the target keep on the stack\n            self._emit_pops_for_exit(ctx)\n\n            pos = self._emit_jump(OpCode.JUMP)\n            ctx.break_jumps.append(pos)", "            self._emit_pending_finally_blocks()\n\n            # Pop what the constructs nested inside the target keep on the stack\n            self._emit_pops_for_exit(ctx)\n\n            pos = self._emit_jump(OpCode.JUMP)\n            ctx.break_jumps.append(pos)")
 m("c07-catch-block-unprotected", "C07", CMP, "                    rethrow_handler = self._emit_jump(OpCode.TRY_START)\n                    try_ctx.handler_active = True", "                    rethrow_handler = self._emit_jump(OpCode.JUMP_IF_TRUE)\n                    try_ctx.handler_active = True")
 m("c07-no-typeerror-conversion-main", "C07", VM, "            except JSTypeError as e:\n                # Convert Python JSTypeError to JavaScript TypeError\n                self._handle_python_exception(\"TypeError\", str(e))\n", "")
 m("c07-native-throw-not-propagated", "C07", VM, "                raise _ThrowThroughNative(exc)\n", "                pass\n")
 m("c07-error-proto-unlinked", "C07", CTX, "            self._globals[error_name].get(\"prototype\")._prototype = (\n                base_error_prototype\n            )", "            pass")
-m("c07-return-before-finally-value", "C07", CMP, "                    self._emit(OpCode.STORE_LOCAL, slot)\n                    self._emit(OpCode.POP)\n                    self._emit_pending_finally_blocks()\n                    self._emit(OpCode.LOAD_LOCAL, slot)", "                    self._emit_pending_finally_blocks()")
 # ---- C10
 m("c10-no-step-limit", "C10", RVM, "            if step_count > self.step_limit:\n                return None  # Fail gracefully on ReDoS", "            if False:\n                return None")
 m("c10-no-check-advance", "C10", RVM, "                if reg_idx < len(registers) and registers[reg_idx] == sp:\n                    # Position didn't advance - fail to prevent infinite loop", "                if False:\n                    # Position didn't advance - fail to prevent infinite loop")
 m("c10-stack-overflow-plain-exception", "C10", RVM, "class RegexStackOverflow(MemoryLimitError):", "class RegexStackOverflow(Exception):")
 m("c10-lookbehind-no-step-limit", "C10", RVM, "            # Same hard step limit as the main loop (ReDoS protection)\n            if step_count > self.step_limit:\n                return False\n", "")
-m("c10-poll-only-when-stack-empty", "C10", RVM, "            if step_count % self.poll_interval == 0:\n                if self.poll_callback and self.poll_callback():\n                    raise RegexTimeoutError(\"Regex execution timed out\")\n\n            # Hard step limit", "            if step_count % self.poll_interval == 0 and not stack:\n                if self.poll_callback and self.poll_callback():\n                    raise RegexTimeoutError(\"Regex execution timed out\")\n\n            # Hard step limit")
 # ---- C12
 m("c12-globals-class-attribute", "C12", CTX, "        self._globals: Dict[str, JSValue] = {}\n", "        self._globals: Dict[str, JSValue] = Context._shared_globals\n")
 m("c12-globals-copied-into-vm", "C12", CTX, "        # Share globals with VM (don't copy - allows nested eval to modify globals)\n        vm.globals = self._globals\n", "        vm.globals = dict(self._globals)\n")
 m("c12-math-module-level", "C12", CTX, "        self._globals[\"Math\"] = self._create_math_object()", "        self._globals[\"Math\"] = _SHARED.setdefault(\"Math\", self._create_math_object())")
-m("c12-vm-pointer-not-cleared", "C12", CTX, "        finally:\n            self._current_vm = previous_vm\n", "        finally:\n            pass\n")
 m("c12-eval-fn-own-globals", "C12", CTX, "                vm = VM(ctx.memory_limit, ctx.time_limit)\n                vm.globals = ctx._globals\n", "                vm = VM(ctx.memory_limit, ctx.time_limit)\n                vm.globals = dict(ctx._globals)\n")
 m("c12-error-proto-shared", "C12", CTX, "        error_prototype = JSObject()\n        error_prototype.set(\"name\", error_name)", "        error_prototype = _SHARED.setdefault(\"proto_\" + error_name, JSObject())\n        error_prototype.set(\"name\", error_name)")
 # ---- C15
 m("c15-free-var-order-by-set", "C15", VM, "                    for var_name in compiled_func.free_vars:", "                    for var_name in list(set(compiled_func.free_vars)):")
-m("c15-result-embeds-id", "C15", "src/microjs/values.py", "        return \"[object Object]\"", "        return \"[object Object %d]\" % (id(value) % 7)")
+# ---- mutants re-anchored after the fix commits rewrote the code they touch
+POLL_BLOCK = ("            self._steps_to_poll -= 1\n            if self._steps_to_poll <= 0:\n                self._steps_to_poll = self.poll_interval\n"
+              "                if self.poll_callback and self.poll_callback():\n                    raise RegexTimeoutError(\"Regex execution timed out\")\n")
+
+
+def _only_main_loop_polls(src):
+    first = src.index(POLL_BLOCK) + len(POLL_BLOCK)
+    return src[:first] + src[first:].replace(POLL_BLOCK, "")
+
+
+m("c01-regex-rebinding-drops-callback", "C01", VM, "            regex_internal._poll_callback = (\n                lambda: time.monotonic() - self.start_time > self.time_limit\n            )", "            regex_internal._poll_callback = None")
+m("c01-lookaround-loops-never-poll", "C01", RVM, _only_main_loop_polls, None)
+m("c02-exit-cleanup-no-pops", "C02", CMP, "                if pop_operands:\n                    for _ in range(saved_loop_stack[li].stack_items):\n                        self._emit(OpCode.POP)\n                li -= 1\n            elif ti > stop_try:", "                li -= 1\n            elif ti > stop_try:")
+m("c07-exit-cleanup-skips-innermost-try", "C07", CMP, "        ti = len(saved_try_stack) - 1\n        while li > stop_loop or ti > stop_try:", "        ti = len(saved_try_stack) - 2\n        while li > stop_loop or ti > stop_try:")
+m("c07-break-runs-all-finalizers", "C07", CMP, "            stop_try = target.try_depth - 1", "            stop_try = -1")
+m("c07-return-value-not-parked", "C07", CMP, "                    self._emit(OpCode.STORE_LOCAL, slot)\n                    self._emit(OpCode.POP)\n                    self._emit_exit_cleanup()\n                    self._emit(OpCode.LOAD_LOCAL, slot)", "                    self._emit_exit_cleanup(pop_operands=False)")
+m("c07-finally-inlined-in-exit-site-loops", "C07", CMP, "                    self.loop_stack = saved_loop_stack[: try_ctx.loop_depth]\n", "")
+m("c07-builtin-errors-uncatchable", "C07", VM, "                self._handle_python_exception(e.name, e.message)\n", "                raise\n")
+m("c07-limit-errors-catchable", "C01", VM, "isinstance(e, (TimeLimitError, MemoryLimitError))", "isinstance(e, MemoryLimitError)", 2)
+m("c10-poll-only-when-stack-empty", "C10", RVM, "            if self._steps_to_poll <= 0:\n                self._steps_to_poll = self.poll_interval\n                if self.poll_callback and self.poll_callback():\n                    raise RegexTimeoutError(\"Regex execution timed out\")\n\n            # Hard step limit", "            if self._steps_to_poll <= 0 and not stack:\n                self._steps_to_poll = self.poll_interval\n                if self.poll_callback and self.poll_callback():\n                    raise RegexTimeoutError(\"Regex execution timed out\")\n\n            # Hard step limit")
+m("c10-poll-countdown-per-run", "C10", RVM, "            self._steps_to_poll -= 1\n            if self._steps_to_poll <= 0:", "            if step_count % self.poll_interval == 0:", 3)
+m("c15-object-string-embeds-id", "C15", "src/microjs/values.py", "    return \"[object Object]\"", "    return \"[object Object %d]\" % (id(value) % 7)")
+m("c12-regexp-keeps-creator-deadline", "C12", VM, "        regex_internal = regexp._internal\n        if self.time_limit is not None:", "        regex_internal = regexp._internal\n        if False and self.time_limit is not None:")
 
 PRE = {
     "c12-globals-class-attribute": (CTX, "class Context:\n    \"\"\"JavaScript execution context with configurable limits.\"\"\"\n", "class Context:\n    \"\"\"JavaScript execution context with configurable limits.\"\"\"\n\n    _shared_globals: Dict[str, JSValue] = {}\n"),
@@ -114,11 +127,19 @@ def main():
                 s2 = s2.replace(po, pn, 1)
                 open(os.path.join(wt, pf), "w").write(s2)
                 s = open(f).read()
-            if old not in s:
-                summary.append((name, pid, "ANCHOR-LOST"))
-                print("%-42s %s ANCHOR-LOST" % (name, pid))
-                continue
-            open(f, "w").write(s.replace(old, new, count))
+            if callable(old):
+                s2 = old(s)
+                if s2 == s:
+                    summary.append((name, pid, "ANCHOR-LOST"))
+                    print("%-42s %s ANCHOR-LOST" % (name, pid))
+                    continue
+                open(f, "w").write(s2)
+            else:
+                if old not in s:
+                    summary.append((name, pid, "ANCHOR-LOST"))
+                    print("%-42s %s ANCHOR-LOST" % (name, pid))
+                    continue
+                open(f, "w").write(s.replace(old, new, count))
             env = dict(os.environ, SIMJS_REPO_SRC=wt + "/src", SIMJS_MAX_NEW="2", SIMJS_NO_EVIDENCE="1")
             env.pop("SIMJS_CHILD", None)
             rc, out = sh("%s -c 'import sys; sys.path.insert(0, \"%s/src\"); import microjs'" % (PY, wt))
